@@ -32,12 +32,12 @@ PROPS = {
     'C11': dict(lean_quick=['Props.C11Fin'], prefixes=['p16e1::math', 'p8e0::math']),
     'C18': dict(lean_quick=['Props.C18', 'Props.C18Q8', 'Props.C18Q8Hi'], prefixes=['polynom']),
     'C19': dict(lean_quick=['Props.C19'], prefixes=['p8e0::{impl#15}', 'p16e1::{impl#15}', 'p32e2::{impl#15}'], assumptions=['rand 0.8: gen_range(lo..hi) returns a value in [lo, hi)']),
-    'C16': dict(lean_quick=['Props.C01Fin', 'Props.C03Fin', 'Props.C06Fin', 'Props.C07Fin', 'Props.C08Fin', 'Props.C09Fin', 'Props.C10Fin', 'Props.C11Fin', 'Props.C17Fin', 'Props.C05ShardQuick', 'Props.C04Hist', 'Props.C04Hist16', 'Props.C12Q8', 'Props.C18Q8', 'Props.C18Q8Hi', 'Props.C12Q8Split', 'Props.C19', 'Props.C13', 'Props.C14'],
+    'C16': dict(lean_quick=['Props.C01Fin', 'Props.C03Fin', 'Props.C06Fin', 'Props.C07Fin', 'Props.C08Fin', 'Props.C09Fin', 'Props.C10Fin', 'Props.C11Fin', 'Props.C17Fin', 'Props.C05ShardQuick', 'Props.C04Hist', 'Props.C04Hist16', 'Props.C04Delta16', 'Props.C12Q8', 'Props.C18Q8', 'Props.C18Q8Hi', 'Props.C12Q8Split', 'Props.C19', 'Props.C13', 'Props.C14'],
                 totality=True, all_theorems=True, prefixes=['']),
     'C15': dict(lean_quick=['Props.C15', 'Props.C15Pi'], prefixes=['p32e2::math::sleef', 'polynom', 'quire32'], oracle15=True),
     'C13': dict(lean_quick=['Props.C13'], prefixes=['pxe1', 'pxe2']),
     'C14': dict(lean_quick=['Props.C14'], prefixes=['pxe1', 'pxe2', 'convert']),
-    'C04': dict(lean_quick=['Props.C04', 'Props.C04Hist', 'Props.C04Hist16', 'Props.C12Q8'], prefixes=['quire8', 'quire16', 'quire32']),
+    'C04': dict(lean_quick=['Props.C04', 'Props.C04Hist', 'Props.C04Hist16', 'Props.C04Delta16', 'Props.C12Q8'], prefixes=['quire8', 'quire16', 'quire32']),
     'C12': dict(lean_quick=['Props.C12', 'Props.C12Q8', 'Props.C12Q8Split'], prefixes=['quire8', 'quire16', 'quire32']),
 }
 # thorough tier: the P8E0 exhaustive theorems re-proved by kernel evaluation only (`decide +kernel`; axioms: propext, Classical.choice, Quot.sound)
